@@ -276,6 +276,10 @@ func (b *c08Base) siteDeviations(ctx *report.Ctx, c *explore.Chooser, partName s
 			for i, ln := range rl {
 				ind := strings.Repeat(unit, ln.Depth)
 				cands := gapLines(ind, unit)
+				if i == 0 {
+					// file-level hashtags may precede the first node of every reader (they are not part of the dialogue)
+					cands = append(cands, "#filetag", "#chapter:two #b")
+				}
 				if k := ic.ChooseDev(1+len(cands), "gap"); k > 0 {
 					lay.Gaps[r][i] = []string{cands[k-1]}
 					devs = append(devs, fmt.Sprintf("line %q before line %d", cands[k-1], i))
@@ -424,6 +428,21 @@ func runC08(ctx *report.Ctx) {
 				q := *p
 				q.Split = comp
 				b.compare(ctx, c, "readers", "readers-"+intsString(comp)+"-"+g.name, yc.Render(&q, g.lay), true)
+			}
+			// what may precede the first node of a script may precede the first node of every reader: file-level
+			// hashtags, comments, blank lines - every non-empty subset of the readers gets each kind of opening
+			for _, opening := range [][]string{{"#filetag"}, {"#chapter:two #b", "", "// c"}, {""}, {"// only a comment"}} {
+				for mask := 1; mask < 1<<len(comp); mask++ {
+					q := *p
+					q.Split = comp
+					lay := &yc.Layout{Gaps: map[int]map[int][]string{}}
+					for r := range comp {
+						if mask&(1<<r) != 0 {
+							lay.Gaps[r] = map[int][]string{0: opening}
+						}
+					}
+					b.compare(ctx, c, "readers", fmt.Sprintf("readers-%s-opening-%q-of-readers-%b", intsString(comp), opening, mask), yc.Render(&q, lay), false)
+				}
 			}
 		}
 	})
